@@ -144,6 +144,11 @@ impl<'tcx> Cx<'tcx> {
                     let env = TypingEnv::post_analysis(self.tcx, caller);
                     if let Some(si) = c.const_.try_eval_scalar_int(self.tcx, env) {
                         let _ = write!(extra, ",\"int\":{}", esc(&format!("{:?}", si)));
+                    } else if let Some(rustc_middle::mir::interpret::Scalar::Ptr(ptr, _)) = c.const_.try_eval_scalar(self.tcx, env) {
+                        let aid = ptr.provenance.alloc_id();
+                        if let Some(rustc_middle::mir::interpret::GlobalAlloc::Static(sdid)) = self.tcx.try_get_global_alloc(aid) {
+                            let _ = write!(extra, ",\"static\":{}", esc(&self.path(sdid)));
+                        }
                     }
                 }
                 format!(
